@@ -249,6 +249,7 @@ func runC04(c *Ctx) {
 	// R6: no goroutine of the router blocks on a client (wedge)
 	const r6 = "C04.R6 deliveries to client sessions never block; dealer and broker never block on the meta session"
 	ruleNonBlocking(c, r6)
+	ruleCompletionSignalled(c, r6)
 	c.R.Floor(r6, 25)
 
 	// R7: dicts handed to peers are never written afterwards or while shared
